@@ -93,13 +93,23 @@ func seq(x interface{}) []interface{} {
 
 // ---------------------------------------------------------------------------------------------------------------- values into Go types
 
-func fieldByID(v reflect.Value, id int64) (reflect.Value, bool) {
+// fieldByID finds the Go field of the IDL field with the given id: by the id in the thrift tag, or - code generated with the
+// `slim` option has no tags - by position (idx is the position of the field in the declaration, which is the order of the Go fields).
+func fieldByID(v reflect.Value, id int64, idx int) (reflect.Value, bool) {
 	t := v.Type()
+	tagged := false
 	for i := 0; i < t.NumField(); i++ {
-		tag := strings.Split(t.Field(i).Tag.Get("thrift"), ",")
+		tg := t.Field(i).Tag.Get("thrift")
+		if tg != "" {
+			tagged = true
+		}
+		tag := strings.Split(tg, ",")
 		if len(tag) >= 2 && tag[1] == strconv.FormatInt(id, 10) {
 			return v.Field(i), true
 		}
+	}
+	if !tagged && idx < t.NumField() {
+		return v.Field(idx), true
 	}
 	return reflect.Value{}, false
 }
@@ -130,9 +140,9 @@ func fill(prog string, v reflect.Value, a A) error {
 		v.Set(nv)
 		return nil
 	case reflect.Struct:
-		for _, f := range seq(a["fields"]) {
+		for idx, f := range seq(a["fields"]) {
 			fa := f.(map[string]interface{})
-			fv, ok := fieldByID(v, num(fa["id"]))
+			fv, ok := fieldByID(v, num(fa["id"]), idx)
 			if !ok {
 				return fmt.Errorf("generated type %s has no field with id %d", v.Type(), num(fa["id"]))
 			}
@@ -193,6 +203,10 @@ func fill(prog string, v reflect.Value, a A) error {
 		}
 		return nil
 	case reflect.Float64:
+		if k == "int" { // a double written as an integer literal
+			v.SetFloat(float64(num(a["i"])))
+			return nil
+		}
 		f, err := strconv.ParseFloat(a["s"].(string), 64)
 		if err != nil {
 			return fmt.Errorf("MACHINERY: %v", err)
@@ -245,6 +259,11 @@ func match(exp A, v reflect.Value, path string) error {
 		case reflect.Int8, reflect.Int16, reflect.Int32, reflect.Int64, reflect.Int:
 			if v.Int() != want {
 				return fmt.Errorf("%s: is %d, must be %d", path, v.Int(), want)
+			}
+			return nil
+		case reflect.Float64:
+			if v.Float() != float64(want) {
+				return fmt.Errorf("%s: is %v, must be %d", path, v.Float(), want)
 			}
 			return nil
 		}
@@ -335,9 +354,9 @@ func match(exp A, v reflect.Value, path string) error {
 		}
 	case "struct":
 		if v.Kind() == reflect.Struct {
-			for _, f := range seq(exp["fields"]) {
+			for idx, f := range seq(exp["fields"]) {
 				fa := f.(map[string]interface{})
-				fv, ok := fieldByID(v, num(fa["id"]))
+				fv, ok := fieldByID(v, num(fa["id"]), idx)
 				if !ok {
 					return fmt.Errorf("%s: generated type %s has no field with id %d", path, v.Type(), num(fa["id"]))
 				}
@@ -484,6 +503,10 @@ func scalarEq(exp A, act A) error {
 			}
 		case "i64":
 			if act["n"].(int64) == num(exp["i"]) {
+				return nil
+			}
+		case "f64":
+			if act["f"].(float64) == float64(num(exp["i"])) {
 				return nil
 			}
 		}
@@ -714,6 +737,9 @@ func writeTree(p thrift.TProtocol, w A) error {
 	case thrift.I64:
 		return p.WriteI64(bg, n)
 	case thrift.DOUBLE:
+		if v["k"] == "int" {
+			return p.WriteDouble(bg, float64(n))
+		}
 		f, _ := strconv.ParseFloat(v["s"].(string), 64)
 		return p.WriteDouble(bg, f)
 	case thrift.STRING:
